@@ -54,6 +54,7 @@ static int count_fds(void)
 
 /* ------------------------------------------------------------------ archives */
 
+static int STREAM_SKIP_KIND = 1;
 static ab_arc ARCS[12];
 static int NARCS;
 static int TRUNCATED_LAST[12];
@@ -331,7 +332,7 @@ static void execute(const ab_arc *a, int ai, int policy, vf_enum *e, const run_o
 	ALLOC_BAL = 0; FILES_OPEN = 0; ALLOC_COUNT = 0; FAULT_FIRED = 0;
 	TRACK = 1;
 	bal0 = ALLOC_BAL;
-	st = mem_open(&ms, a->buf, a->n, 1);
+	st = mem_open(&ms, a->buf, a->n, STREAM_SKIP_KIND);      /* 1: skip callback; 0 (argument noskip=1): the library reads over what it skips */
 	rd = st ? lha_reader_new(st) : NULL;
 	if (!rd) { TRACK = 0; if (st) lha_input_stream_free(st); sandbox_leave(); return; }
 	lha_reader_set_dir_policy(rd, policy);
@@ -678,9 +679,53 @@ int main(int argc, char **argv)
 	setvbuf(stdout, obuf, _IOLBF, sizeof obuf);      /* no allocation by stdio while the allocator balance is tracked */
 	build_archives();
 	LEAKS = atoi(vf_extra("leaks", "0"));
+	if (!strcmp(VF.space, "fromfile")) {
+		/* the constructor that opens the file itself (lha_input_stream_from): with every single allocation of
+		 * open + reader + two entries + free failing in turn, the file it opened is closed again and nothing stays allocated */
+		int ai;
+		for (ai = 0; ai < NARCS; ++ai) {
+			char path[64];
+			long K = 0, kk;
+			FILE *wf;
+			if (!vf_case("archive=%d opened by name: every allocation failing in turn", ai)) continue;
+			snprintf(path, sizeof path, "fromfile.%d.lzh", (int) getpid());
+			wf = __real_fopen(path, "wb");
+			if (!wf) { printf("HARNESS cannot write %s\n", path); continue; }
+			fwrite(ARCS[ai].buf, 1, ARCS[ai].n, wf); __real_fclose(wf);
+			for (kk = -1; kk < (K ? K : 1); ++kk) {
+				LHAInputStream *st;
+				int fds0 = count_fds();
+				ALLOC_BAL = 0; FILES_OPEN = 0; ALLOC_COUNT = 0; FAULT_FIRED = 0; FAIL_AT = kk; FAIL_AT2 = -1;
+				TRACK = 1;
+				st = lha_input_stream_from(path);
+				if (st) {
+					LHAReader *rd = lha_reader_new(st);
+					if (rd) {
+						uint8_t b[64];
+						if (lha_reader_next_file(rd)) { (void) lha_reader_read(rd, b, sizeof b); (void) lha_reader_next_file(rd); }
+						lha_reader_free(rd);
+					}
+					lha_input_stream_free(st);
+				}
+				TRACK = 0;
+				if (kk < 0) K = ALLOC_COUNT;
+				++OPS;
+				if (ALLOC_BAL != 0) vf_viol("c20-leak", "archive %d opened by name, allocation %ld of %ld fails: %ld allocation(s) not released", ai, kk, K, ALLOC_BAL);
+				if (FILES_OPEN != 0 || count_fds() != fds0) vf_viol("c20-file-left-open", "archive %d opened by name, allocation %ld of %ld fails: the file the library opened is still open", ai, kk, K);
+				VF.transitions += 1;
+			}
+			FAIL_AT = -1;
+			unlink(path);
+			vf_nontrivial(vf_mix((uint64_t) ai, 31415));
+			vf_outcome((uint64_t) K);
+		}
+		vf_done();
+		return 0;
+	}
 	if (!strcmp(VF.space, "histories") || !strcmp(VF.space, "prefixes") || !strcmp(VF.space, "faults")) {
 		int full = atoi(vf_extra("full", "4"));
 		int only_arc = atoi(vf_extra("archive", "-1"));
+		STREAM_SKIP_KIND = atoi(vf_extra("noskip", "0")) ? 0 : 1;
 		int prefixes = !strcmp(VF.space, "prefixes"), faults = !strcmp(VF.space, "faults");
 		long long total = 1, idx;
 		int k;
